@@ -333,57 +333,87 @@ ValDigits(x, P, t) ==
     [] t.k = "null" -> DZero(Ws(x))
 EncTags(x, P, ts) == CatAll([i \in 1..Len(ts) |-> Fix(W(TagDigits(x, ts[i])), Ws(x), x.le) \o Fix(W(ValDigits(x, P, ts[i])), Ws(x), x.le)], Len(ts))
 
-Place(x) ==
-  LET c == x.cls   w == Ws(x)   ix == Ix(x)
-      t == SymTable(x)
-      symb == EncSyms(t, c, x.le)
-      hb == IF HasV(x) THEN EncSysV(BuildSysV(t, x.nb, x.so), x.le) ELSE <<>>
-      gb == IF HasG(x) THEN GnuBytes(x, t) ELSE <<>>
-      ts == AllTags(x)
-      dynlen == Len(ts) * DynEnt(c)
-      \* sections; `ad`: sh_addr of user section k, `dyn`: the encoded array
-      secs(ad, dyn) ==
-        << Sec(DotDynsym, Sht("SHT_DYNSYM"), N(2), ad[ix.sym], symb, N(Len(symb)), N(ix.str), N(1), N(w), N(SymEnt(x))),
-           Sec(IF x.variant = "split" THEN DotDstr ELSE DotDynstr, Sht("SHT_STRTAB"), N(2), ad[ix.str], DynStr, N(Len(DynStr)), Z, Z, N(1), Z) >>
-        \o (IF HasV(x) THEN << Sec(DotHash, Sht("SHT_HASH"), N(2), ad[ix.hash], hb, N(Len(hb)), N(ix.sym), Z, N(4), N(4)) >> ELSE <<>>)
-        \o (IF HasG(x) THEN << Sec(DotGnuHash, Sht("SHT_GNU_HASH"), N(2), ad[ix.gnu], gb, N(Len(gb)), N(ix.sym), Z, N(w), Z) >> ELSE <<>>)
-        \o << Sec(DotDynamic, Sht("SHT_DYNAMIC"), N(3), ad[ix.dyn], dyn, N(dynlen), N(ix.str), Z, N(w), N(DynEnt(c))) >>
-        \o (IF x.variant = "split"
-            THEN << Sec(DotData, Sht("SHT_PROGBITS"), N(3), ad[ix.copy], dyn, N(dynlen), Z, Z, N(w), Z),
-                    Sec(DotDynstr, Sht("SHT_STRTAB"), N(2), ad[ix.decoy], Decoy, N(Len(Decoy)), Z, Z, N(1), Z) >>
-            ELSE <<>>)
-      nsec == IF x.variant = "split" THEN ix.decoy ELSE ix.dyn
-      nload == IF x.layout \in {"two", "twobss"} THEN 2 ELSE 1
-      zs == [k \in 1..nsec |-> Z]
-      im0 == [Im0 EXCEPT !.cls = c, !.le = x.le, !.machine = x.machine, !.osabi = x.osabi, !.etype = N(3),
-                         !.secs = secs(zs, Rep(0, dynlen)), !.segs = [j \in 1..(nload + 1) |-> Seg(Z, Z, Z, Z, Z, Z, Z, Z)]]
-      offs == TLCEval([k \in 1..nsec |-> SecOff(im0, k)])
-      dend == DataOff(im0) + DataSize(im0)
-      loads == Loads(x, offs[ix.str], dend)
-      ad == TLCEval([k \in 1..nsec |-> AddrOf(loads, offs[k])])
-      P == [strtab |-> ad[ix.str], symtab |-> ad[ix.sym], hash |-> IF HasV(x) THEN ad[ix.hash] ELSE DZero(w),
-            gnuhash |-> IF HasG(x) THEN ad[ix.gnu] ELSE DZero(w), decoy |-> IF x.variant = "split" THEN ad[ix.decoy] ELSE Plus(ad[ix.str], 2),
-            bss |-> Plus(loads[1].va, loads[1].fsz + 16)]
-      dyn == EncTags(x, P, ts)
-      pd == IF x.variant = "split" THEN ix.copy ELSE ix.dyn
-      segs == [j \in 1..nload |-> Seg(N(1), N(IF j = 1 THEN 5 ELSE 6), N(loads[j].off), W(loads[j].va), W(loads[j].va),
-                                       N(loads[j].fsz), N(loads[j].msz), N(4096))]
-              \o << Seg(N(2), N(6), N(offs[pd]), W(ad[pd]), W(ad[pd]), N(dynlen), N(dynlen), N(w)) >>
-      wads == [k \in 1..nsec |-> W(ad[k])]
-      im == [im0 EXCEPT !.secs = secs(wads, dyn), !.segs = segs]
-  IN [im |-> im, d0 |-> DataOff(im0), data |-> Flat([k \in 1..nsec |-> im.secs[k].data]), offs |-> offs, lens |-> [k \in 1..nsec |-> Len(im.secs[k].data)],
-      loads |-> loads, P |-> P, pdyn |-> [off |-> offs[pd], size |-> dynlen, index |-> nload], n |-> Len(t), tab |-> t, dend |-> dend]
-
-\* the symbols from `so` on are hashed (so = table length: none); chosen when the table is complete
-Finish(so) ==
+\* Writer, last three steps.  Build(so): the symbol table is complete - the symbols from `so` on are hashed (so = table
+\* length: none), the symbol and hash tables are serialised.  PlaceTables: file offsets and virtual addresses of all
+\* tables under the object's PT_LOAD layout.  Encode: the dynamic array with those addresses, the image.
+\* (Three actions rather than one: what an action stores in `mem` is a concrete value, whereas TLC re-evaluates a LET
+\* definition at every use inside a function constructor.)
+SecCount(x) == IF x.variant = "split" THEN Ix(x).decoy ELSE Ix(x).dyn
+NLoad(x) == IF x.layout \in {"two", "twobss"} THEN 2 ELSE 1
+Build(so) ==
   /\ phase = "build"
   /\ so >= 1 /\ so <= Len(o.syms) + 1
   /\ (o.mode # "syms" => so = o.so)
   /\ (o.ld => so = Len(o.syms) + 1)                       \* GNU ld's form exists for objects without hashed symbols only
   /\ (~HasG(o) /\ ~HasV(o) => so = 1)
-  /\ LET x == [o EXCEPT !.so = so] IN o' = x /\ mem' = Place(x)
-  /\ phase' = "done"
+  /\ LET x == [o EXCEPT !.so = so]
+         t == SymTable(x) IN
+     /\ o' = x
+     /\ mem' = [tab |-> t, n |-> Len(t), symb |-> EncSyms(t, x.cls, x.le),
+                hb |-> IF HasV(x) THEN EncSysV(BuildSysV(t, x.nb, x.so), x.le) ELSE <<>>,
+                gb |-> IF HasG(x) THEN GnuBytes(x, t) ELSE <<>>,
+                dynlen |-> Len(AllTags(x)) * DynEnt(x.cls)]
+  /\ phase' = "built"
   /\ UNCHANGED rd
+PlaceTables ==
+  /\ phase = "built"
+  /\ LET x == o   ix == Ix(o)   w == Ws(o)
+         lens == <<Len(mem.symb), Len(DynStr)>> \o (IF HasV(x) THEN <<Len(mem.hb)>> ELSE <<>>) \o (IF HasG(x) THEN <<Len(mem.gb)>> ELSE <<>>)
+                 \o <<mem.dynlen>> \o (IF x.variant = "split" THEN <<mem.dynlen, Len(Decoy)>> ELSE <<>>)
+         \* where the data region starts (Elf.tla: after the ELF header and the program header table) and ends (after .shstrtab)
+         hdr == [Im0 EXCEPT !.cls = x.cls, !.segs = [j \in 1..(NLoad(x) + 1) |-> Z]]
+         d0 == DataOff(hdr)
+         offs == [k \in 1..Len(lens) |-> d0 + SumR(lens, 1, k - 1)]
+         dsum == SumR(lens, 1, Len(lens)) IN
+     mem' = [f \in DOMAIN mem \cup {"lens", "d0", "offs", "dsum"} |->
+               CASE f = "lens" -> lens [] f = "d0" -> d0 [] f = "offs" -> offs [] f = "dsum" -> dsum [] OTHER -> mem[f]]
+  /\ phase' = "placed"
+  /\ UNCHANGED <<o, rd>>
+
+Sections(x, m, ad, dyn) ==
+  LET c == x.cls   w == Ws(x)   ix == Ix(x) IN
+  << Sec(DotDynsym, Sht("SHT_DYNSYM"), N(2), ad[ix.sym], m.symb, N(Len(m.symb)), N(ix.str), N(1), N(w), N(SymEnt(x))),
+     Sec(IF x.variant = "split" THEN DotDstr ELSE DotDynstr, Sht("SHT_STRTAB"), N(2), ad[ix.str], DynStr, N(Len(DynStr)), Z, Z, N(1), Z) >>
+  \o (IF HasV(x) THEN << Sec(DotHash, Sht("SHT_HASH"), N(2), ad[ix.hash], m.hb, N(Len(m.hb)), N(ix.sym), Z, N(4), N(4)) >> ELSE <<>>)
+  \o (IF HasG(x) THEN << Sec(DotGnuHash, Sht("SHT_GNU_HASH"), N(2), ad[ix.gnu], m.gb, N(Len(m.gb)), N(ix.sym), Z, N(w), Z) >> ELSE <<>>)
+  \o << Sec(DotDynamic, Sht("SHT_DYNAMIC"), N(3), ad[ix.dyn], dyn, N(m.dynlen), N(ix.str), Z, N(w), N(DynEnt(c))) >>
+  \o (IF x.variant = "split"
+      THEN << Sec(DotData, Sht("SHT_PROGBITS"), N(3), ad[ix.copy], dyn, N(m.dynlen), Z, Z, N(w), Z),
+              Sec(DotDynstr, Sht("SHT_STRTAB"), N(2), ad[ix.decoy], Decoy, N(Len(Decoy)), Z, Z, N(1), Z) >>
+      ELSE <<>>)
+\* the length of .shstrtab (Elf.tla writes it after the user sections)
+ShStrLen(x) == Len(StrTab([Im0 EXCEPT !.secs = Sections(x, [symb |-> <<>>, hb |-> <<>>, gb |-> <<>>, dynlen |-> 0], [k \in 1..SecCount(x) |-> Z], <<>>)]))
+Addresses ==
+  /\ phase = "placed"
+  /\ LET x == o   ix == Ix(o)   w == Ws(o)
+         dend == mem.d0 + mem.dsum + ShStrLen(o)
+         loads == Loads(o, mem.offs[ix.str], dend)
+         ad == [k \in 1..Len(mem.offs) |-> AddrOf(loads, mem.offs[k])]
+         P == [strtab |-> ad[ix.str], symtab |-> ad[ix.sym], hash |-> IF HasV(x) THEN ad[ix.hash] ELSE DZero(w),
+               gnuhash |-> IF HasG(x) THEN ad[ix.gnu] ELSE DZero(w), decoy |-> IF x.variant = "split" THEN ad[ix.decoy] ELSE Plus(ad[ix.str], 2),
+               bss |-> Plus(loads[1].va, loads[1].fsz + 16)]
+         pd == IF x.variant = "split" THEN ix.copy ELSE ix.dyn IN
+     mem' = [f \in DOMAIN mem \cup {"dend", "loads", "ad", "P", "pdyn"} |->
+               CASE f = "dend" -> dend [] f = "loads" -> loads [] f = "ad" -> ad [] f = "P" -> P
+                 [] f = "pdyn" -> [off |-> mem.offs[pd], size |-> mem.dynlen, index |-> Len(loads), sec |-> pd]
+                 [] OTHER -> mem[f]]
+  /\ phase' = "addressed"
+  /\ UNCHANGED <<o, rd>>
+Encode ==
+  /\ phase = "addressed"
+  /\ LET x == o   w == Ws(o)
+         dyn == EncTags(o, mem.P, AllTags(o))
+         nload == Len(mem.loads)
+         segs == [j \in 1..nload |-> Seg(N(1), N(IF j = 1 THEN 5 ELSE 6), N(mem.loads[j].off), W(mem.loads[j].va), W(mem.loads[j].va),
+                                          N(mem.loads[j].fsz), N(mem.loads[j].msz), N(4096))]
+                 \o << Seg(N(2), N(6), N(mem.pdyn.off), W(mem.ad[mem.pdyn.sec]), W(mem.ad[mem.pdyn.sec]), N(mem.dynlen), N(mem.dynlen), N(w)) >>
+         wads == [k \in 1..Len(mem.ad) |-> W(mem.ad[k])]
+         im == [Im0 EXCEPT !.cls = x.cls, !.le = x.le, !.machine = x.machine, !.osabi = x.osabi, !.etype = N(3),
+                           !.secs = Sections(o, mem, wads, dyn), !.segs = segs]
+         data == mem.symb \o DynStr \o mem.hb \o mem.gb \o dyn \o (IF x.variant = "split" THEN dyn \o Decoy ELSE <<>>) IN
+     mem' = [f \in DOMAIN mem \cup {"im", "data"} |-> CASE f = "im" -> im [] f = "data" -> data [] OTHER -> mem[f]]
+  /\ phase' = "done"
+  /\ UNCHANGED <<o, rd>>
 
 (* ---------------------------- reader machine --------------------------- *)
 \* the reader sees: the data region of the file (mem.data, file offsets mem.d0 ..), the PT_LOAD / PT_DYNAMIC entries
@@ -444,7 +474,8 @@ Reset == At("done") /\ rd' = Idle /\ Keep
 Next ==
   \/ \E i \in FreeIds : AddTag(i)
   \/ \E id \in SymIds : AddSymbol(id)
-  \/ \E so \in 1..(MaxSyms + 1) : Finish(so)
+  \/ \E so \in 1..(MaxSyms + 1) : Build(so)
+  \/ PlaceTables \/ Addresses \/ Encode
   \/ \E v \in {"sec", "seg"} : StartRead(v)
   \/ ScanTag \/ SelectStrtab \/ ResolveStrings \/ CountSymbols \/ ReadSymbols \/ Reset
 Spec == Init /\ [][Next]_vars
@@ -547,6 +578,8 @@ PtrInsideSegment ==
                                 /\ g.off <= off /\ off < g.off + g.fsz /\ Plus(g.va, off - g.off) = a
                                 /\ \A k \in 1..Len(mem.loads) : k # j => ~InLoad(mem.loads[k], a))
              /\ (off >= 0 => off < mem.dend)
+\* the action-level scan stops in the state the closed form of the machine gives (used for trace validation)
+RunAgrees == \A v \in {"sec", "seg"} : Finished(v) => rd.sc = Scan(mem.data, Rel(TabBase(v)), TabSize(v), o.cls, o.le)
 \* the scan stays inside the table and ends
 ScanBounded == rd.sc.n <= Len(Body(o)) + 1 /\ (Done => (Len(Body(o)) + 1) * DynEnt(o.cls) <= mem.pdyn.size)
 NoFault == rd.pc # "fault"
@@ -561,4 +594,11 @@ SameData ==
     /\ (o.variant = "match" <=> mem.pdyn.off = mem.offs[Ix(o).dyn])
     /\ (o.variant = "split" => mem.im.secs[Ix(o).copy].data = mem.im.secs[Ix(o).dyn].data)
 ChunksOK == Done /\ rd.view = "idle" => ChunksDisjoint(ImWith) /\ ChunksDisjoint(ImStripped)
+\* the offsets the writer placed the tables at are the offsets Elf.tla's layout gives the sections; the data region the reader
+\* works on is the concatenation of the sections' bytes
+PlacementOK ==
+  Done /\ rd.view = "idle" =>
+    /\ \A k \in 1..Len(mem.offs) : mem.offs[k] = SecOff(mem.im, k) /\ mem.lens[k] = Len(mem.im.secs[k].data)
+    /\ Len(mem.im.secs) = Len(mem.offs) /\ mem.d0 = DataOff(mem.im) /\ mem.dend = DataOff(mem.im) + DataSize(mem.im)
+    /\ mem.data = Flat([k \in 1..Len(mem.offs) |-> mem.im.secs[k].data])
 =============================================================================
